@@ -115,6 +115,8 @@ type Case struct {
 	Flags  uint16 `json:"flags"` // header flag word with QR cleared
 	Settle int    `json:"settle"` // ms to wait for straggling copies (dual_selector / fallback)
 	Pair   bool   `json:"pair"`   // two interleaved clients (IDs id and id^0x1111) hit the same stale cache entry
+	Chunk  string `json:"chunk"`  // tcp: how the client writes a frame: whole | prefix11 | prefix_body | bytes
+	Reps   int    `json:"reps"`   // tcp: queries (IDs id, id+1, ...) sent one after the other on the same connection
 }
 
 type Job struct {
@@ -1051,42 +1053,11 @@ func send(mode string, h server.Handler, wire []byte, q *dns.Msg, tr string) ([]
 			}
 		}
 	case "tcp":
-		ln, err := net.Listen("tcp", "127.0.0.1:0")
+		outs, err := sendTCP(h, [][]byte{wire}, "whole")
 		if err != nil {
 			return nil, err
 		}
-		done := make(chan struct{})
-		go func() { server.ServeTCP(ln, h, server.TCPServerOpts{}); close(done) }()
-		defer func() { ln.Close(); <-done }()
-		cl, err := net.Dial("tcp", ln.Addr().String())
-		if err != nil {
-			return nil, err
-		}
-		defer cl.Close()
-		w := make([]byte, 2+len(wire))
-		binary.BigEndian.PutUint16(w, uint16(len(wire)))
-		copy(w[2:], wire)
-		if _, err := cl.Write(w); err != nil {
-			return nil, err
-		}
-		var out [][]byte
-		wait := replyWait
-		for {
-			cl.SetReadDeadline(time.Now().Add(wait))
-			var hd [2]byte
-			if _, err := io.ReadFull(cl, hd[:]); err != nil {
-				return out, nil
-			}
-			b := make([]byte, binary.BigEndian.Uint16(hd[:]))
-			if _, err := io.ReadFull(cl, b); err != nil {
-				return out, nil
-			}
-			out = append(out, b)
-			wait = quietWait
-			if len(out) > 2 {
-				return out, nil
-			}
-		}
+		return outs[0], nil
 	case "httpget", "httppost":
 		hh := server.NewHttpHandler(h, server.HttpHandlerOpts{})
 		var req *http.Request
@@ -1106,6 +1077,86 @@ func send(mode string, h server.Handler, wire []byte, q *dns.Msg, tr string) ([]
 		return [][]byte{rec.Body.Bytes()}, nil
 	}
 	return nil, fmt.Errorf("unknown mode %q", mode)
+}
+
+// sendTCP: one connection to ServeTCP; the framed queries are written one after the other (the next one after
+// the reply to the previous one arrived), each in the given chunking. Returns the replies read after each query.
+func sendTCP(h server.Handler, wires [][]byte, chunk string) ([][][]byte, error) {
+	ln, err := net.Listen("tcp", "127.0.0.1:0")
+	if err != nil {
+		return nil, err
+	}
+	done := make(chan struct{})
+	go func() { server.ServeTCP(ln, h, server.TCPServerOpts{}); close(done) }()
+	defer func() { ln.Close(); <-done }()
+	cl, err := net.Dial("tcp", ln.Addr().String())
+	if err != nil {
+		return nil, err
+	}
+	defer cl.Close()
+	const gap = 15 * time.Millisecond // lets the chunks travel as separate segments; far below the server's 2 s / 10 s read timeouts
+	outs := make([][][]byte, len(wires))
+	dead := false
+	for qi, wire := range wires {
+		if dead {
+			continue // connection is gone: the remaining queries get no reply
+		}
+		w := make([]byte, 2+len(wire))
+		binary.BigEndian.PutUint16(w, uint16(len(wire)))
+		copy(w[2:], wire)
+		var parts [][]byte
+		switch chunk {
+		case "prefix11":
+			parts = [][]byte{w[:1], w[1:2], w[2:]}
+		case "prefix_body":
+			parts = [][]byte{w[:2], w[2:]}
+		case "prefix1_rest":
+			parts = [][]byte{w[:1], w[1:]}
+		case "bytes":
+			for i := range w {
+				parts = append(parts, w[i:i+1])
+			}
+		default:
+			parts = [][]byte{w}
+		}
+		for pi, p := range parts {
+			if _, err := cl.Write(p); err != nil {
+				dead = true
+				break
+			}
+			if pi < 3 && pi < len(parts)-1 {
+				time.Sleep(gap)
+			}
+		}
+		if dead {
+			continue
+		}
+		wait := replyWait
+		for {
+			cl.SetReadDeadline(time.Now().Add(wait))
+			var hd [2]byte
+			if _, err := io.ReadFull(cl, hd[:]); err != nil {
+				if ne, ok := err.(net.Error); !(ok && ne.Timeout()) {
+					dead = true
+				}
+				break
+			}
+			b := make([]byte, binary.BigEndian.Uint16(hd[:]))
+			if _, err := io.ReadFull(cl, b); err != nil {
+				dead = true
+				break
+			}
+			outs[qi] = append(outs[qi], b)
+			if qi < len(wires)-1 || len(outs[qi]) > 2 {
+				break // a duplicate of this reply would be read as the (wrong) reply to the next query
+			}
+			wait = quietWait
+		}
+		if len(outs[qi]) == 0 {
+			dead = true
+		}
+	}
+	return outs, nil
 }
 
 // maxOptInCache: GET /dump of the cache plugin, max number of OPT records in any stored message
@@ -1174,6 +1225,12 @@ func runCase(c *Case) (res Result) {
 	if c.Pair {
 		ids = append(ids, c.ID^0x1111)
 	}
+	tcpSeq := c.Mode == "tcp" && !c.Pair
+	if tcpSeq {
+		for k := 1; k < c.Reps; k++ {
+			ids = append(ids, c.ID+uint16(k))
+		}
+	}
 	for _, id := range ids {
 		cs.clients = append(cs.clients, &trace{client: true, wantID: id})
 	}
@@ -1221,7 +1278,24 @@ func runCase(c *Case) (res Result) {
 	}
 	cs.order = append(append([]*trace{}, cs.clients...), cs.order...)
 	var cwg sync.WaitGroup
+	if tcpSeq {
+		wires := make([][]byte, len(cls))
+		for i, cl := range cls {
+			wires[i] = cl.wire
+		}
+		outs, err := sendTCP(h, wires, c.Chunk)
+		if err != nil {
+			res.Why = "transport: " + err.Error()
+			return
+		}
+		for i, cl := range cls {
+			cl.replies = outs[i]
+		}
+	}
 	for _, cl := range cls {
+		if tcpSeq {
+			break
+		}
 		cwg.Add(1)
 		go func(cl *client) {
 			defer cwg.Done()
